@@ -264,6 +264,9 @@ impl P11 {
             vec![V::Char('a'), V::Char('b'), V::Char('é')],
             vec![V::Byte(0), V::Byte(128), V::Byte(255)],
             vec![V::Int(1), V::Float(1.5), V::Int(2), V::Float(-1.0)],
+            // negative fractions next to the integers they truncate to and round to (an exact int/float comparison has
+            // one case per sign of the fraction)
+            vec![V::Int(-2), V::Float(-2.5), V::Int(-3), V::Float(-1.5), V::Int(0), V::Float(-0.5)],
             // integer limits and the neighbours of 2^53, where a conversion to double merges distinct integers
             vec![V::Int(i64::MIN), V::Int(-(1 << 53) - 1), V::Int(-(1 << 53)), V::Int(1 << 53), V::Int((1 << 53) + 1), V::Int(i64::MAX - 1), V::Int(i64::MAX)],
             vec![V::Float(f64::NEG_INFINITY), V::Float(-1e308), V::Float(-5e-324), V::Float(5e-324), V::Float(1e308), V::Float(f64::INFINITY)],
@@ -449,7 +452,7 @@ impl Property for P11 {
         }
     }
     fn rule(&self) -> String {
-        format!("the {} pure builtins x arity 0..3 x every tuple of {} argument kinds (incl. three array flavours, map, closure, builtin, error object), called through the real VM with injected arguments; then every documented signature x boundary values (all singles and pairs of 69 values, a reduced cube for 3 arguments); laws over completely enumerated domains: int(str(n)) == n for |n| <= 4096 and integer limits, float(str(x)) == x for k/8 with |k| <= 4096 and extreme finite floats, the three UTF-8/chars round trips for all strings of length <= 3 over {{a, é, €, 𝄞, NUL, space}}, decode_utf8 on all byte arrays of length <= 3 over 8 bytes, round(x, p) for every p in 0..=18 and x over k/16 (|k| <= 2048), +-(2^a + j/16) for a in 36..=52, thirds, tenths and 5*10^k + 1/16 (result = the double nearest to the exact decimal expansion rounded at p digits; below 2^52 the documented round(x*10^p)/10^p is accepted as well), sort on all arrays of length <= 5 (<= 4 for the larger domains) over 9 mutually comparable domains (ints, floats, strings, chars, bytes, an int/float mix, the integer limits with the neighbours of 2^53, extreme floats, large integers mixed with the doubles next to them) plus long arrays. Oracle: the contract table mc/src/refbuiltins.rs transcribed from docs/language/builtins.md (documented kinds => documented result and argument mutation; anything else => runtime error whose message starts with the builtin's name)", PURE.len(), self.kinds.len())
+        format!("the {} pure builtins x arity 0..3 x every tuple of {} argument kinds (incl. three array flavours, map, closure, builtin, error object), called through the real VM with injected arguments; then every documented signature x boundary values (all singles and pairs of 69 values, a reduced cube for 3 arguments); laws over completely enumerated domains: int(str(n)) == n for |n| <= 4096 and integer limits, float(str(x)) == x for k/8 with |k| <= 4096 and extreme finite floats, the three UTF-8/chars round trips for all strings of length <= 3 over {{a, é, €, 𝄞, NUL, space}}, decode_utf8 on all byte arrays of length <= 3 over 8 bytes, round(x, p) for every p in 0..=18 and x over k/16 (|k| <= 2048), +-(2^a + j/16) for a in 36..=52, thirds, tenths and 5*10^k + 1/16 (result = the double nearest to the exact decimal expansion rounded at p digits; below 2^52 the documented round(x*10^p)/10^p is accepted as well), sort on all arrays of length <= 5 (<= 4 for the larger domains) over 10 mutually comparable domains (ints, floats, strings, chars, bytes, an int/float mix, negative fractions mixed with the integers on both sides of them, the integer limits with the neighbours of 2^53, extreme floats, large integers mixed with the doubles next to them) plus long arrays. Oracle: the contract table mc/src/refbuiltins.rs transcribed from docs/language/builtins.md (documented kinds => documented result and argument mutation; anything else => runtime error whose message starts with the builtin's name)", PURE.len(), self.kinds.len())
     }
     fn bounds(&self) -> Value {
         json!({"cases": self.cases.len(), "builtins": PURE.len(), "argument_kinds": self.kinds.len()})
